@@ -103,6 +103,13 @@ def decorate(model, rng, what):
         return "\n".join(out) + "\n", {"decoration": what}
     if what == "crlf":
         return text.replace("\n", "\r\n"), {"decoration": what}
+    if what == "crlf_blank_lines":
+        out = []
+        for line in text.splitlines():
+            out.append(line)
+            if rng.random() < 0.5 and not line.rstrip().endswith(","):
+                out.extend([""] * rng.randint(1, 2))
+        return "\r\n".join(out) + "\r\n", {"decoration": what}
     if what == "continuation":
         # newline after an opening parenthesis / before a closing one inside expressions
         out = []
@@ -202,7 +209,7 @@ def main(argv=None):
             if cd.err is not None or view(cd) != base_view0:
                 rep.violation(f"the comment {cm[:60]!r} ({where}) changes the model: {cd.err or 'component membership / layout differ'}",
                               {"kind": "direct", "text": base, "decorated": deco, "decoration": where, "error": cd.err})
-    kinds = ["comment_lines", "trailing", "annotations", "blank_lines", "indentation", "crlf", "continuation"]
+    kinds = ["comment_lines", "trailing", "annotations", "blank_lines", "indentation", "crlf", "crlf_blank_lines", "continuation"]
     for i in range(n):
         got = family.new_case(drv, rng, gen, rep, n_comps=rng.choice([1, 2, 3]))
         if got is None:
@@ -261,8 +268,8 @@ def main(argv=None):
     drv.close()
     return rep.finish(
         level="proof",
-        rule="random models x 3 of 7 decorations (comment lines before / between declaration blocks, trailing comments, unit / description "
-             "annotations, blank lines, indentation with spaces and tabs, CRLF, line continuation inside parentheses); comment texts from a "
+        rule="random models x 3 of 8 decorations (comment lines before / between declaration blocks, trailing comments, unit / description "
+             "annotations, blank lines, indentation with spaces and tabs, CRLF, CRLF with blank lines, line continuation inside parentheses); comment texts from a "
              "corpus of 54 strings (units, numbers, 1/0, unbalanced brackets, statements, hashes, quotes, long prose with punctuation, "
              "non-ASCII, and the eight characters other than \\n / \\r that str.splitlines() treats as line ends, each followed by statement-like text); each decorated text is distinct; every corpus string also once as a trailing comment and once as a comment line on a fixed model; per-load time limit 20 s; three directed cases for the lexer-level known findings",
         trusted_base=["Coq 8.16.1 kernel", "extraction + ocaml/driver.ml", "Lark lexer / LALR engine (outside the model; the items come from the real parse)"],
